@@ -26,21 +26,28 @@ def ref_dechunk(raw):
     """Strict chunked reader. Returns (body, state, consumed) with state in
     'done' (last-chunk and trailer section seen), 'more' (valid so far, incomplete), 'bad' (malformed)."""
     i = 0
-    body = b""
+    parts = []
     n = len(raw)
+    HEX = b"0123456789abcdefABCDEF"
+    def out(st, used):
+        return b"".join(parts), st, used
     while True:
-        j = raw.find(CRLF, i)
+        j = raw.find(CRLF, i, i + 4096) if n - i > 4096 else raw.find(CRLF, i)
+        if j < 0 and n - i > 4096:
+            j = raw.find(CRLF, i)
         if j < 0:
             line = raw[i:]
             # a partial size line must still look like one
             szs = line.split(b";")[0].strip(b" \t")
-            if szs and any(c not in b"0123456789abcdefABCDEF" for c in szs):
-                return body, "bad", i
-            return body, "more", i
+            if szs and any(c not in HEX for c in szs):
+                return out("bad", i)
+            if b"\n" in line:
+                return out("bad", i)
+            return out("more", i)
         line = raw[i:j]
         szs = line.split(b";")[0].strip(b" \t")
-        if not szs or any(c not in b"0123456789abcdefABCDEF" for c in szs):
-            return body, "bad", i
+        if not szs or any(c not in HEX for c in szs) or b"\n" in line:
+            return out("bad", i)
         sz = int(szs, 16)
         i = j + 2
         if sz == 0:
@@ -48,22 +55,24 @@ def ref_dechunk(raw):
             while True:
                 j = raw.find(CRLF, i)
                 if j < 0:
-                    return body, "more", i
+                    return out("bad" if b"\n" in raw[i:] else "more", i)
                 if j == i:
-                    return body, "done", j + 2
+                    return out("done", j + 2)
+                if b"\n" in raw[i:j]:
+                    return out("bad", i)
                 i = j + 2
         avail = raw[i:i + sz]
-        body += avail
+        parts.append(avail)
         if len(avail) < sz:
-            return body, "more", n
+            return out("more", n)
         i += sz
         tail = raw[i:i + 2]
         if len(tail) < 2:
             if tail and tail != b"\r":
-                return body, "bad", i
-            return body, "more", n
+                return out("bad", i)
+            return out("more", n)
         if tail != CRLF:
-            return body, "bad", i
+            return out("bad", i)
         i += 2
 
 
@@ -133,19 +142,22 @@ def read_response(raw, eof, method="GET"):
 # origin byte streams (built here so that the stub and the model are given the very same bytes)
 # ---------------------------------------------------------------------------------------------------------
 def chunk_encode(body, sizes, ext=b"", trailer=b"", last=True, upper=False):
-    out = b""
+    out = []
     i = 0
     k = 0
     sizes = sizes or [max(len(body), 1)]
+    fmt = b"%X" if upper else b"%x"
     while i < len(body):
         n = max(1, sizes[k % len(sizes)])
         k += 1
         c = body[i:i + n]
         i += n
-        out += (b"%X" if upper else b"%x") % len(c) + ext + CRLF + c + CRLF
+        out.append(fmt % len(c) + ext + CRLF)
+        out.append(c)
+        out.append(CRLF)
     if last:
-        out += b"0" + ext + CRLF + trailer + CRLF
-    return out
+        out.append(b"0" + ext + CRLF + trailer + CRLF)
+    return b"".join(out)
 
 
 def cut_segments(data, splits):
